@@ -34,6 +34,9 @@ func PrinterFlavor() *flavors.Flavor {
 type printerChangedCaller struct{}
 
 func (caller printerChangedCaller) Call(s *slip.Scope, args slip.List, depth int) slip.Object {
+	if len(args) != 2 {
+		slip.ErrorPanic(s, depth, "Wrong number of arguments to watch-printer :changed. 2 expected but got %d.", len(args))
+	}
 	w := s.WriterVar("*standard-output*", depth)
 	_, _ = fmt.Fprintf(w, "%s: %s\n", args[0], args[1])
 	return nil
